@@ -4,9 +4,9 @@ ID=$1; WT=/tmp/wt/$ID; OUT=/tmp/seed_out/$ID
 cd $WT || exit 2
 git checkout -q -- . ; rm -f rodbus/tests/seed_demo.rs
 mkdir -p rodbus/tests; cp $OUT/seed_demo.rs rodbus/tests/seed_demo.rs
-echo "== demo WITHOUT patch"; cargo test -p rodbus --test seed_demo --offline 2>&1 | grep -E "^test result|^test .*(ok|FAILED)$" | tail -4
+echo "== demo WITHOUT patch"; cargo test -p rodbus $SEED_FEATURES --test seed_demo --offline 2>&1 | grep -E "^test result|^test .*(ok|FAILED)$" | tail -4
 git apply $OUT/patch.diff || { echo "patch does not apply"; exit 1; }
-echo "== demo WITH patch"; cargo test -p rodbus --test seed_demo --offline 2>&1 | grep -E "^test result|^test .*(ok|FAILED)$" | tail -4
+echo "== demo WITH patch"; cargo test -p rodbus $SEED_FEATURES --test seed_demo --offline 2>&1 | grep -E "^test result|^test .*(ok|FAILED)$" | tail -4
 rm -f rodbus/tests/seed_demo.rs; rmdir rodbus/tests 2>/dev/null
 echo "== baseline suite WITH patch"; cargo test --workspace --offline 2>&1 | grep -E "^test result" | awk '{p+=$4; f+=$6} END {print "passed",p,"failed",f}'
 git checkout -q -- . ; git status --short
